@@ -5,6 +5,7 @@ import ThruVerif.Driver.SendFileCmd
 import ThruVerif.Driver.AdmissionCmd
 import ThruVerif.Driver.PathCmd
 import ThruVerif.Driver.SidecarCmd
+import ThruVerif.Model.Budget
 /-!
 `tvdriver`: one case per input line, one result per output line. The same lines are given to the Go
 harness, which runs the real code; the orchestrator diffs the two outputs.
@@ -16,6 +17,13 @@ def handleGeo (ws : List String) : String :=
   | some [size, c, idx, sc] =>
     let side := if sc = 1 then toString (TV.Gen.sidecarTotalRaw size c) else "-"
     s!"{TV.Gen.chunkTotal size c} {TV.Gen.chunkSizeForIndex size c idx} {side}"
+  | _ => "bad-op"
+
+def handleBudget (ws : List String) : String :=
+  match natList ws with
+  | some [f, r, c] =>
+    let b := TV.Budget.computeBudget f r c (decide (c > 1))
+    s!"{b.1} {b.2} {TV.Budget.normalizeStreams b.1}"
   | _ => "bad-op"
 
 def handle (line : String) : String :=
@@ -31,6 +39,7 @@ def handle (line : String) : String :=
   | "adm" :: ws => handleAdm ws
   | "recvfx" :: ws => handleRecvFx ws
   | "scparse" :: ws => handleScParse ws
+  | "budget" :: ws => handleBudget ws
   | "scser" :: ws => handleScSer ws
   | "scload" :: ws => handleScLoad ws
   | "clean" :: ws => handlePath "clean" ws
